@@ -608,4 +608,4 @@ def f30_skew_raises(rec, feat):
     return rec["monitor"] == "segment.intersect" and feat.get("dim") == 3 and feat.get("exc") == "NotCoplanar" and feat.get("nref") == 0 and feat.get("other") in ("segment", "line")
 
 
-CLASSIFIERS = {"f16_collinear_shared_endpoint": f16_collinear_shared_endpoint, "f30_skew_raises": f30_skew_raises}
+CLASSIFIERS = {"f16_collinear_shared_endpoint": f16_collinear_shared_endpoint}  # f30 was fixed in /repo (611b428)
